@@ -793,7 +793,10 @@ inline void c16Apply(Ctx &c, IOptimizer &opt, int order, int dim, ValidityInput 
     {
         std::string m2 = "stale";
         bool v2 = opt.checkValidity(&m2);
+        // asking for the details must not consume the stored message
+        const bool kept = opt.lastError().empty() == got;
         c.require("C16.checkValidity_agrees", v2 == got && m2.empty() == got && opt.checkValidity(nullptr) == got, key, what);
+        c.require("C16.message_still_available_after_detail_query", kept, key, what);
     }
     // the message belongs to this object's latest initialisation: still there after details were asked for ...
     c.require("C16.message_still_available_after_detail_query", opt.lastError().empty() == got && opt.isValid() == got, key, what);
@@ -1135,7 +1138,15 @@ inline void runC19(Ctx &c)
             {
                 // an earlier self-check on the same optimizer / workspace was aborted by an exception from the user's callback
                 CostProgram pr = oc.prog;
-                pr.throw_at_seg = r.range(1, cl.N - 1);
+                if (r.coin())
+                    pr.throw_at_seg = r.range(1, cl.N - 1); // already in the first evaluation of the self-check
+                else
+                {
+                    // in the middle of the finite-difference sweep
+                    const long perEval = (long)cl.N * (oc.K + 1);
+                    pr.throw_at_call = perEval * r.range(1, 4) + r.range(1, (int)perEval);
+                    pr.call_count = 0;
+                }
                 bool thrown = rig.opt->checkGradientsThrows(r.coin() ? x : genDecisionVector(r, oc, rig, 0.5), pr, three, wsH);
                 c.event(thrown ? "history.self_check_aborted_by_callback_exception" : "history.callback_exception_not_reached");
             }
